@@ -1803,6 +1803,22 @@ class FortranFileReader(FortranReaderBase):
         if self._close_on_destruction:
             self.file.close()
 
+    def __getstate__(self):
+        """The open file is not part of a copy or pickle of this reader. The
+        nodes of a parse tree refer to their reader through their source
+        item, so without this a tree read from a file could be neither
+        deep-copied nor pickled. A copy keeps everything read so far but
+        cannot read on.
+
+        :returns: the state to copy or pickle.
+        :rtype: dict
+        """
+        state = self.__dict__.copy()
+        state["file"] = None
+        state["source"] = None
+        state["_close_on_destruction"] = False
+        return state
+
     def close_source(self):
         self.file.close()
 
